@@ -121,7 +121,9 @@ def print_majors(gene: Gene, major: str):
     if len(activities) == 1:
         log.info(f"  Activity: {activities.pop()}")
     elif len(activities) > 1:
-        log.info(f"  Activity: {' or '.join(activities)} (please check minor alleles)")
+        log.info(
+            f"  Activity: {' or '.join(sorted(activities))} (please check minor alleles)"
+        )
 
     ms = ",\n                 ".join(
         _print_mutation(gene, m) for m in sorted(allele.func_muts)
@@ -160,7 +162,9 @@ def print_minors(gene: Gene, major: str, minor: str):
     if mn.alt_name:
         log.info(f"  Legacy name: *{mn.alt_name}")
 
-    ms = ",\n                 ".join(_print_mutation(gene, m) for m in allele.func_muts)
+    ms = ",\n                 ".join(
+        _print_mutation(gene, m) for m in sorted(allele.func_muts)
+    )
     log.info(f"  Key mutations: {ms if ms else 'none'}")
 
     m = ",\n                    ".join(
